@@ -130,7 +130,7 @@ func (g *c03gen) cond() string {
 // stmt generates one statement; pure: no assignments (used inside functions that may run as pipeline stages)
 func (g *c03gen) stmt(depth int, inFunc bool) pnode {
 	g.budget--
-	max := 11
+	max := 14
 	if depth >= 3 || g.budget <= 0 {
 		max = 5
 	}
@@ -199,6 +199,24 @@ func (g *c03gen) stmt(depth int, inFunc bool) pnode {
 			return pnode{T: "call", S: fmt.Sprintf("%sf%d %s", g.fpfx, 1+g.r.Intn(g.nfuncs), g.word())}
 		}
 		return pnode{T: "out", S: g.word()}
+	case 10: // switch on a value
+		n := pnode{T: "switch", S: fmt.Sprint(g.r.Intn(3))}
+		if len(g.vars) > 0 && g.r.Bool() {
+			n.S = "$" + g.r.Pick(g.vars)
+		}
+		n.Stages = []string{fmt.Sprint(g.r.Intn(3))}
+		n.Kids = g.block(depth+1, inFunc, 1+g.r.Intn(2))
+		n.Else = g.block(depth+1, inFunc, 1)
+		return n
+	case 11: // sub-shell inside a string
+		return pnode{T: "subout", S: g.word(), Kids: []pnode{g.pipe(inFunc)}}
+	case 12: // structured data through format / cast
+		n := pnode{T: "pipe", S: fmt.Sprintf("tout json [%d,%d,%d]", g.r.Intn(9), g.r.Intn(9), g.r.Intn(9))}
+		n.Stages = []string{[]string{"msort", "mtac", "[..2]"}[g.r.Intn(3)], "format " + []string{"yaml", "jsonl", "json"}[g.r.Intn(3)]}
+		if g.r.Bool() {
+			n.Stages = append(n.Stages, "cast str")
+		}
+		return n
 	default:
 		return g.pipe(inFunc)
 	}
@@ -292,6 +310,16 @@ func printNode(b *strings.Builder, n pnode, indent string) {
 		b.WriteString("try {\n")
 		printBlock(b, n.Kids, indent+"  ")
 		b.WriteString(indent + "}")
+	case "switch":
+		b.WriteString("switch " + n.S + " {\n" + indent + "  case " + n.Stages[0] + " {\n")
+		printBlock(b, n.Kids, indent+"    ")
+		b.WriteString(indent + "  }\n" + indent + "  default {\n")
+		printBlock(b, n.Else, indent+"    ")
+		b.WriteString(indent + "  }\n" + indent + "}")
+	case "subout":
+		var sb strings.Builder
+		printNode(&sb, n.Kids[0], indent)
+		b.WriteString("out \"" + n.S + ":${" + sb.String() + "}\"")
 	case "and", "or":
 		op := " && "
 		if n.T == "or" {
